@@ -4,7 +4,7 @@ VERIF = os.path.dirname(os.path.dirname(os.path.abspath(__file__)))
 
 ENGINE_A = "Attempt.tla product exploration (captured graph x reference automata x UTF-8) + replay on compiled lexers"
 CHECKS = {
- "C01": ("model_checking", "TLC on Attempt.tla (T-munch, T-live) + replay of every product state on 4 lexer builds",
+ "C01": ("model_checking", "TLC on Attempt.tla (T-munch, T-live) + replay of every product state on 4 lexer builds; TLC on EdgeImpl.tla (edge tests exact) bound to the real helpers through the hook",
          "TLC explores, for every corpus definition, the finite product of the graph captured from the real derive with independently built per-pattern reference automata over byte blocks, so the longest-match/priority comparison covers inputs of every length; every product state is then replayed with concrete bytes on the lexers rustc compiled from the real derive (tail-call/state-machine x unsafe/forbid_unsafe). Corpus-bounded on definitions.",
          "trusts regex-automata/regex-syntax as the meaning of a single pattern, TLC, rustc; definitions limited to corpus + seeded random; bytes of a block not instantiated are assumed to behave like the instantiated ones", "3.4, 5 C01"),
  "C02": ("model_checking", "TLC on Attempt.tla (T-exact, T-live, error outcomes) + replay incl. char-boundary rounding",
@@ -30,7 +30,7 @@ CHECKS.update({
  "C04": ("model_checking", "TLC on LexSpec.tla (Boundaries), Attempt.tla (T-utf8), RefUtf8.tla (acceptance) + replay with slice()/remainder() checks + LexTrace endb conjunct",
          "UTF-8 validity is part of the product state (Attempt) and of the explicit inputs (LexSpec, multi-byte characters in every alphabet); the driver compares slice() and remainder() with source[span] after every call in default and forbid_unsafe builds; RefUtf8.tla decides per pattern whether it can match invalid UTF-8 and the derive must have rejected such str-mode definitions.",
          "as C01/C03", "3.4 T-utf8, 5 C04"),
- "C05": ("model_checking", "LexTrace.tla Read/End/EndB conjuncts on hooked reads of exactly-sized heap inputs; SourceRead.tla + replay of Source::read; build equality",
+ "C05": ("model_checking", "LexTrace.tla Read/End/EndB conjuncts on hooked reads of exactly-sized heap inputs; SourceRead.tla + replay of Source::read; build equality; every replay repeated with adversarial bytes next to the source",
          "Every read the generated code issues goes through LexerInternal::read (hooked): the trace spec requires Some exactly when offset+size <= len, for inputs of every length around the 8-byte batch allocated exactly; SourceRead.tla checks the checked_add-shaped bounds rule against unbounded arithmetic for a small word and every case is replayed on the public Source::read of str, [u8] and Deref wrappers (offsets near usize::MAX included); default, forbid_unsafe, debug and release builds must produce identical traces.",
          "an access that bypasses LexerInternal::read / Lexer::span (e.g. a changed Chunk::from_ptr reading more than SIZE) is invisible to a TLA+ trace check; stated as assumption, a sanitizer would be needed", "5 C05"),
  "C06": ("model_checking", "same TLC-generated behaviours and validated traces on tail-call and state-machine builds + stack probe on long inputs",
@@ -56,7 +56,7 @@ CHECKS.update({
          "hash seeds are sampled, not enumerated", "5 C16"),
  "C17": ("exploration", "TLC enumeration of enum sources and of write/check/tamper histories (Cli.tla) replayed on the real logos-cli binary",
          "Cli.tla specifies what must remain of the derive lists and how the output file evolves; every enumerated source and history is executed with the real binary and compared (stdout parsed with syn; impl part equal to generate()).",
-         "fixed enum body; --format not exercised", "3.9, 5 C17"),
+         "fixed enum body; --format not exercised; damage to the output file is one of five kinds", "3.9, 5 C17"),
  "C18": ("exploration", "TLC enumeration of argument / item permutations (Attr.tla, tokenizer model refines grammar) replayed on the real derive",
          "Every permutation of every subset of named arguments and of #[logos(...)] items is run through the real derive and must give the same verdict, leaves, priorities and graph as the canonical order; TLC also checks the model of the attribute tokenizer against the abstract grammar.",
          "fixed argument values", "3.8, 5 C18"),
@@ -97,7 +97,7 @@ def main():
             "guard": "--cfg logos_verif",
             "enable": "RUSTFLAGS='--cfg logos_verif' via .cargo/config.toml of the harness crates (harness/.cargo/config.toml, harness/subj-template/.cargo/config.toml)",
             "baseline_off_cmd": "cd /repo && cargo nextest run --workspace --no-fail-fast --tool-config-file pb:/w/lib/nextest.toml --profile pb --test-threads 8 --offline || cargo test --workspace --no-fail-fast --offline",
-            "source_commits": ["52790b6", "6e2ce41"],
+            "source_commits": ["52790b6", "6e2ce41", "3b14951"],
             "add_only": True,
         },
         "engines": [
@@ -105,6 +105,7 @@ def main():
             {"name": "amb", "path": "spec/Amb.tla", "serves_properties": ["C08"], "kind_free_text": "TLC exploration of the reference product, tie sets vs captured graph errors"},
             {"name": "lexspec", "path": "spec/LexSpec.tla", "serves_properties": ["C03", "C04", "C05", "C06", "C07", "C12", "C20"], "kind_free_text": "reference lexer on explicit inputs (sequence level, liveness, chunked protocol) + replay; Modes.tla, RefUtf8.tla"},
             {"name": "graphlex", "path": "spec/GraphLex.tla", "serves_properties": ["C01", "C03", "C05", "C06", "C20"], "kind_free_text": "micro-step model of the generated code, model-checked against the reference lexer; GraphTrace.tla validates recorded traces against it step by step (drift level)"},
+            {"name": "edgeimpl", "path": "spec/EdgeImpl.tla", "serves_properties": ["C01", "C02"], "kind_free_text": "the generator's edge tests (comparisons with holes, count_ops, tables, can_error, merge): algorithm transcribed, exactness checked by TLC over boundary-biased classes, every case compared with the real helpers through the hook; a wrong helper is confirmed on compiled lexers"},
             {"name": "compile", "path": "spec/Compile.tla", "serves_properties": ["C01"], "kind_free_text": "the four passes of Graph::new transcribed and compared with the hook's pass snapshots (drift level); Attempt.tla on every snapshot"},
             {"name": "regex", "path": "spec/Regex.tla", "serves_properties": ["C09", "C01"], "kind_free_text": "regex ASTs: Complexity (priorities), Matches (textbook semantics, RegexAgree against the real lexers)"},
             {"name": "lextrace", "path": "spec/LexTrace.tla", "serves_properties": ["C03", "C04", "C05", "C06", "C20"], "kind_free_text": "trace validation of recorded hook events (code -> spec)"},
